@@ -142,7 +142,6 @@ def model_request(variants, reqs):
         st = rq.get("st", 200)
         base_ttl = (rq["maxage"] if rq.get("maxage") is not None else 120) * 1000
         hashes, bresp, hit = [], [], []
-        httl = 0
         for r in range(MAXR + 1):
             # `set req.hash += x` replaces the hash by sha256(old ++ x) (assign.UpdateHash)
             h = v["hash"][r]
@@ -159,9 +158,8 @@ def model_request(variants, reqs):
                 elif f:
                     c = False
                 bresp.append("(%d %d)" % (1 if c else 0, t))
-            if v["hit_ttl"][r]:
-                httl = v["hit_ttl"][r] * 1000     # ctx.ObjectTTL persists for the rest of the request
-            hit.append(str(httl))
+            # what vcl_hit assigns to obj.ttl on this round (ctx.ObjectTTL then stays for the request)
+            hit.append(str(v["hit_ttl"][r] * 1000) if v["hit_ttl"][r] else "x")
         orc = " ".join("(" + " ".join(v["acts"][sc]) + ")" for sc in SCOPES)
         ops = []
         for r in range(MAXR + 1):
